@@ -185,6 +185,9 @@ func vfRawFrame(c vfCamDesc, pix []uint16, timeOnMs, lastFFCMs, frameCount uint3
 var vfInitialFrameLogIntervalFirstMin, vfInitialFrameLogInterval = frameLogIntervalFirstMin, frameLogInterval
 
 func vfResetGlobals() {
+	// a previous case may have ended in a (recovered) panic inside frame processing, i.e. with the snapshot
+	// mutex held: in the daemon that is a crash, here the next case starts from a fresh mutex
+	mu = sync.Mutex{}
 	mu.Lock()
 	processor = nil
 	headerInfo = nil
